@@ -74,6 +74,10 @@ class DistributorInterface(ABC):
     ) -> None: ...
 
     @property
+    def global_grad_selector(self) -> tuple[bool, ...]:
+        return self._global_grad_selector
+
+    @property
     def local_grad_selector(self) -> tuple[bool, ...]:
         return self._local_grad_selector
 
